@@ -7,6 +7,7 @@ import (
 	"encoding/binary"
 	"fmt"
 	"io"
+	"os"
 	"sync"
 	"testing"
 
@@ -76,6 +77,15 @@ func concurrently(iters int, setup func(g int) func(i int) error) error {
 	return first
 }
 
+// concIters: the race-detector shards keep the quick iteration count (they are
+// roughly ten times slower per iteration).
+func concIters(quick, thorough int) int {
+	if os.Getenv("VF_RACE") == "1" {
+		return quick
+	}
+	return ev.Scale(quick, thorough)
+}
+
 func concDRBG(id string, g int) *drbg {
 	return newDRBG([]byte(fmt.Sprintf("%d/%s/%d", ev.Seed(), id, g)))
 }
@@ -103,7 +113,7 @@ func concReport(c *ev.Collector, t *testing.T, id, what string, iters int, err e
 // ---- C09 ----
 
 func c09Concurrent(c *ev.Collector, t *testing.T) {
-	iters := ev.Scale(250, 2500)
+	iters := concIters(250, 2500)
 	err := concurrently(iters, func(g int) func(int) error {
 		d := concDRBG("C09", g)
 		return func(i int) error {
@@ -161,7 +171,7 @@ func c09Concurrent(c *ev.Collector, t *testing.T) {
 // ---- C10 ----
 
 func c10Concurrent(c *ev.Collector, t *testing.T) {
-	iters := ev.Scale(1500, 8000)
+	iters := concIters(1500, 8000)
 	const nEph = 4
 	err := concurrently(iters, func(g int) func(int) error {
 		d := concDRBG("C10", g)
@@ -248,7 +258,7 @@ func c10Concurrent(c *ev.Collector, t *testing.T) {
 // ---- C13 ----
 
 func c13Concurrent(c *ev.Collector, t *testing.T) {
-	iters := ev.Scale(150, 1500)
+	iters := concIters(150, 1500)
 	// xts.Cipher is documented as safe for concurrent use: all goroutines share
 	// these two objects (and the package's tweak pool).
 	master := newDRBG([]byte(fmt.Sprintf("%d/C13/keys", ev.Seed())))
@@ -291,7 +301,7 @@ func c13Concurrent(c *ev.Collector, t *testing.T) {
 // ---- C14 ----
 
 func c14Concurrent(c *ev.Collector, t *testing.T) {
-	iters := ev.Scale(400, 4000)
+	iters := concIters(400, 4000)
 	err := concurrently(iters, func(g int) func(int) error {
 		d := concDRBG("C14", g)
 		return func(i int) error {
@@ -311,7 +321,7 @@ func c14Concurrent(c *ev.Collector, t *testing.T) {
 // ---- C18 ----
 
 func c18Concurrent(c *ev.Collector, t *testing.T) {
-	iters := ev.Scale(300, 3000)
+	iters := concIters(300, 3000)
 	err := concurrently(iters, func(g int) func(int) error {
 		d := concDRBG("C18", g)
 		return func(i int) error {
